@@ -1505,7 +1505,14 @@ impl Analyzable for Array
 			.into_iter()
 			.map(|element| {
 				let element = element.analyze(typer);
-				let element_type = element.value_type();
+				// An element that was poisoned by a preliminary pass
+				// must not poison the element type of the array, because
+				// then the error is not found again in the final pass.
+				let element_type = match &element
+				{
+					Expression::Poison(Poison::Error(_)) => None,
+					_ => element.value_type(),
+				};
 				typer.contextual_type = element_type.clone();
 				match typer.put_symbol(&name, element_type)
 				{
